@@ -36,7 +36,7 @@ func TestMain(m *testing.M) {
 	}
 	run = vk.Start("C09", "exploration")
 	run.Rule("per (entry point, protocol state) an input stream indexed by i: first the small-scope systematic mutants of every well-formed sample built with the repo's own serialisers (truncation at every byte; every interesting 8/16-bit value in each of the first 12 bytes), then seeded mutants (bit flips, length-field tampering, truncation, duplication, splicing, random bytes; 0..2048 bytes); stateful handlers get samples that follow their current state (live session ids, last identifier, valid authenticator). non-trivial = distinct input that got past the entry point's framing (call returned nil / produced a reply or a state change / parser returned a non-empty result)")
-	run.Assume("wall-clock is used only by the 10 s per-input hang watchdog (a firing is a candidate, confirmed only if it reproduces in a fresh process) and by the scaling probe (min of 7 repetitions at n,2n,4n; flagged only if both doublings cost >= 6x and the largest run takes >= 200us)")
+	run.Assume("wall-clock is used only by the 10 s per-input hang watchdog (a firing is a candidate, confirmed only if it reproduces in a fresh process) and by the scaling probe, which reads the process CPU clock instead (min of 9 repetitions at n,2n,4n bytes with the collector off; flagged only if both doublings cost >= 6x and the largest run takes >= 200us of CPU, and only if a second probe in a fresh process flags it again)")
 	run.Assume("a panic is attributed to bng when the innermost non-runtime, non-stdlib, non-third-party frame of its stack is a bng function; panics raised inside the harness or inside third-party parsers called by the harness are reported as observations, not violations")
 	code := m.Run()
 	ec := run.Finish()
@@ -81,11 +81,12 @@ type noteRec struct { // other violations detected inside the child
 }
 
 type scaleRec struct {
-	State string   `json:"state"`
-	Sizes []int    `json:"sizes"`
-	MinNs []int64  `json:"min_ns"`
+	State string    `json:"state"`
+	Sizes []int     `json:"sizes"`
+	MinNs []int64   `json:"min_ns"`
 	Ratio []float64 `json:"ratio"`
-	Flag  bool     `json:"flag"`
+	Flag  bool      `json:"flag"`
+	Input string    `json:"input_4n,omitempty"` // the largest sample (hex), kept only when flagged
 }
 
 type sampleRec struct {
@@ -115,30 +116,41 @@ type result struct {
 // ---------------------------------------------------------------------------------------------
 // parent
 
-type crash struct {
-	Entry, State string
-	Idx          int
-	Input        []byte
-	Aux          bool
-	Kind         string // fatal | hang | listener
-	Msg, Site    string
-	Owner        string
-	Stderr       string
-	From         int
+type verdict struct {
+	ok   bool
+	how  string
+	note string
 }
 
 type agg struct {
-	mu      sync.Mutex
-	crashes []crash
-	panics  []panicRec // recovered, with entry/state attached through pEntry/pState
-	pEntry  []string
-	pState  []string
-	notes   []noteRec
-	nEntry  []string
-	nState  []string
-	scales  map[string][]scaleRec
-	maxCall map[string]int64
-	samples map[string]sampleRec
+	mu       sync.Mutex
+	cands    map[string]*cand
+	order    []string
+	verdicts map[string]verdict
+	scales   map[string][]scaleRec
+	maxCall  map[string]int64
+	samples  map[string]sampleRec
+	jobWall  map[string]float64
+}
+
+// consider registers a candidate; the first witness of every (entry, rule, class) is
+// reproduced right away by the calling worker.
+func (a *agg) consider(c *cand) {
+	k := c.entry + "|" + c.rule + "|" + c.class
+	a.mu.Lock()
+	if old, ok := a.cands[k]; ok {
+		old.count++
+		a.mu.Unlock()
+		return
+	}
+	c.count = 1
+	a.cands[k] = c
+	a.order = append(a.order, k)
+	a.mu.Unlock()
+	ok, how, note := reproduce(c)
+	a.mu.Lock()
+	a.verdicts[k] = verdict{ok, how, note}
+	a.mu.Unlock()
 }
 
 var workDir string
@@ -210,7 +222,7 @@ type job struct {
 	scale    bool
 }
 
-func (a *agg) merge(e *entry, state string, r *result) {
+func (a *agg) merge(e *entry, state string, from int, r *result) {
 	if r == nil {
 		return
 	}
@@ -234,21 +246,10 @@ func (a *agg) merge(e *entry, state string, r *result) {
 	if state != "" && r.Fed > 0 {
 		run.Distinct("entry_states_exercised", e.name+"/"+state)
 	}
-	a.mu.Lock()
-	defer a.mu.Unlock()
-	for _, p := range r.Panics {
-		a.panics = append(a.panics, p)
-		a.pEntry = append(a.pEntry, e.name)
-		a.pState = append(a.pState, state)
-	}
 	for site, n := range r.PanicCount {
 		run.Count("recovered_panics/"+e.name+"/"+site, n)
 	}
-	for _, n := range r.Notes {
-		a.notes = append(a.notes, n)
-		a.nEntry = append(a.nEntry, e.name)
-		a.nState = append(a.nState, state)
-	}
+	a.mu.Lock()
 	if len(r.Scale) > 0 {
 		a.scales[e.name] = append(a.scales[e.name], r.Scale...)
 	}
@@ -259,6 +260,23 @@ func (a *agg) merge(e *entry, state string, r *result) {
 		if _, ok := a.samples[s.Entry]; !ok {
 			a.samples[s.Entry] = s
 		}
+	}
+	a.mu.Unlock()
+	for _, p := range r.Panics {
+		switch p.Owner {
+		case "bng":
+			in, _ := hex.DecodeString(p.Input)
+			a.consider(&cand{entry: e.name, state: state, rule: "no-panic", class: p.Site + "#" + panicKind(p.Msg), kind: "recovered", idx: p.Idx, input: in, aux: p.Aux, msg: p.Msg, site: p.Site, stack: p.Stack, from: from})
+		case "thirdparty":
+			run.Count("observed_third_party_panics/"+e.name, 1)
+			run.Distinct("third_party_panic_sites", p.Site)
+		default:
+			run.Inconclusive(e.name+"/"+state, "panic inside the harness: "+p.Msg+" at "+p.Site)
+		}
+	}
+	for _, n := range r.Notes {
+		in, _ := hex.DecodeString(n.Input)
+		a.consider(&cand{entry: e.name, state: state, rule: n.Rule, class: n.Class, kind: "note", idx: n.Idx, input: in, msg: n.Desc, extra: n.Extra, from: from})
 	}
 }
 
@@ -272,7 +290,7 @@ func runJob(a *agg, jb job, fatalBudget *int64) {
 			run.Inconclusive(jb.e.name+"/"+jb.state, "setup failed: "+res.SetupErr)
 			return
 		}
-		a.merge(jb.e, jb.state, res)
+		a.merge(jb.e, jb.state, from, res)
 		if werr == nil && res != nil && res.Done {
 			return
 		}
@@ -281,26 +299,35 @@ func runJob(a *agg, jb job, fatalBudget *int64) {
 			run.Inconclusive(jb.e.name+"/"+jb.state, fmt.Sprintf("child died before journalling anything (%v): %s", werr, tail(stderr, 400)))
 			return
 		}
-		c := crash{Entry: jb.e.name, State: jb.state, Idx: j.Idx, Input: j.Input, Aux: j.Aux, Stderr: tail(stderr, 6000), From: from}
+		kind := "fatal"
+		run.Count("process_deaths/"+jb.e.name, 1)
 		switch {
 		case res != nil && res.HangIdx != nil:
-			c.Kind = "hang"
-			c.Msg = fmt.Sprintf("input still being processed after the %d s watchdog", 10)
+			kind = "hang"
+			site := hangSite(stderr)
+			a.consider(&cand{entry: jb.e.name, state: jb.state, rule: "no-hang", class: "watchdog-10s@" + site, kind: "hang", idx: j.Idx, input: j.Input, aux: j.Aux, site: site,
+				msg: "input still being processed after the 10 s watchdog; goroutine busy in " + site, stack: tail(stderr, 6000), from: from})
 		case strings.Contains(stderr, "C09-LISTENER-DEAD"):
-			c.Kind = "listener"
-			c.Msg = "listener stopped answering a well-formed probe although the process is alive"
+			kind = "listener"
+			a.consider(&cand{entry: jb.e.name, state: jb.state, rule: "listener-alive", class: "no-answer-to-valid-probe", kind: "listener", idx: j.Idx, input: j.Input, aux: j.Aux,
+				msg: "listener stopped answering a well-formed probe although the process is alive", stack: tail(stderr, 6000), from: from})
 		default:
-			c.Kind = "fatal"
-			c.Msg, c.Site, c.Owner = parseCrash(stderr)
+			msg, site, owner := parseCrash(stderr)
+			if owner != "bng" {
+				run.Inconclusive(jb.e.name+"/"+jb.state, fmt.Sprintf("child died at input %d without a bng frame on the crashing stack (%s, %v): %s", j.Idx, owner, werr, tail(msg+" "+stderr, 300)))
+			} else {
+				rule := "no-panic"
+				if strings.HasPrefix(msg, "fatal error") {
+					rule = "no-fatal-error"
+				}
+				a.consider(&cand{entry: jb.e.name, state: jb.state, rule: rule, class: site + "#" + panicKind(msg), kind: "fatal", idx: j.Idx, input: j.Input, aux: j.Aux,
+					msg: msg + " [process died]", site: site, stack: tail(stderr, 6000), from: from})
+			}
 		}
-		run.Count("process_deaths/"+jb.e.name, 1)
-		a.mu.Lock()
-		a.crashes = append(a.crashes, c)
-		a.mu.Unlock()
 		if jb.scale {
 			return
 		}
-		if c.Kind == "hang" && j.Idx+1 < jb.to {
+		if kind == "hang" && j.Idx+1 < jb.to {
 			// every further hang would cost another watchdog period: one witness per chunk is enough
 			run.Count("inputs_not_executed_after_hang/"+jb.e.name, jb.to-j.Idx-1)
 			return
@@ -331,7 +358,7 @@ func TestHammer(t *testing.T) {
 	if err != nil {
 		t.Fatal(err)
 	}
-	a := &agg{scales: map[string][]scaleRec{}, maxCall: map[string]int64{}, samples: map[string]sampleRec{}}
+	a := &agg{cands: map[string]*cand{}, verdicts: map[string]verdict{}, scales: map[string][]scaleRec{}, maxCall: map[string]int64{}, samples: map[string]sampleRec{}, jobWall: map[string]float64{}}
 	only := os.Getenv("VERIF_C09_ONLY") // debugging aid: restrict to entry points containing this string
 
 	var jobs []job
@@ -351,6 +378,9 @@ func TestHammer(t *testing.T) {
 		if chunk == 0 {
 			chunk = 2500
 		}
+		if run.Thorough() {
+			chunk *= 4 // fewer process start-ups per input
+		}
 		for _, st := range states {
 			per := (total + len(states) - 1) / len(states)
 			if e.quota != nil {
@@ -369,7 +399,9 @@ func TestHammer(t *testing.T) {
 		}
 	}
 	// long chunks first
-	sort.SliceStable(jobs, func(i, j int) bool { return jobs[i].e.cost*(jobs[i].to-jobs[i].from) > jobs[j].e.cost*(jobs[j].to-jobs[j].from) })
+	sort.SliceStable(jobs, func(i, j int) bool {
+		return jobs[i].e.cost*(jobs[i].to-jobs[i].from) > jobs[j].e.cost*(jobs[j].to-jobs[j].from)
+	})
 
 	workers := runtime.NumCPU()
 	if workers > 16 {
@@ -385,7 +417,11 @@ func TestHammer(t *testing.T) {
 		go func() {
 			defer wg.Done()
 			for jb := range ch {
+				t0 := time.Now()
 				runJob(a, jb, budgets[jb.e.name])
+				a.mu.Lock()
+				a.jobWall[jb.e.name] += time.Since(t0).Seconds()
+				a.mu.Unlock()
 			}
 		}()
 	}
@@ -403,6 +439,7 @@ func TestHammer(t *testing.T) {
 		mc[k] = float64(v) / 1e3
 	}
 	run.Extra("max_call_us_by_entry", mc)
+	run.Extra("worker_seconds_by_entry", a.jobWall)
 	sc := map[string]any{}
 	for k, v := range a.scales {
 		sc[k] = v
@@ -473,96 +510,19 @@ func panicKind(msg string) string {
 }
 
 func judge(t *testing.T, a *agg) {
-	cands := map[string]*cand{}
-	var order []string
-	add := func(c *cand) {
-		k := c.entry + "|" + c.rule + "|" + c.class
-		if old, ok := cands[k]; ok {
-			old.count++
-			// prefer the shortest witness
-			if len(c.input) < len(old.input) && !c.aux {
-				n := old.count
-				*old = *c
-				old.count = n
-			}
-			return
-		}
-		c.count = 1
-		cands[k] = c
-		order = append(order, k)
-	}
-	for i, p := range a.panics {
-		switch p.Owner {
-		case "bng":
-			in, _ := hex.DecodeString(p.Input)
-			add(&cand{entry: a.pEntry[i], state: a.pState[i], rule: "no-panic", class: p.Site + "#" + panicKind(p.Msg), kind: "recovered", idx: p.Idx, input: in, aux: p.Aux, msg: p.Msg, site: p.Site, stack: p.Stack})
-		case "thirdparty":
-			run.Count("observed_third_party_panics/"+a.pEntry[i], 1)
-			run.Distinct("third_party_panic_sites", p.Site)
-		default:
-			run.Inconclusive(a.pEntry[i]+"/"+a.pState[i], "panic inside the harness: "+p.Msg+" at "+p.Site)
-		}
-	}
-	for _, c := range a.crashes {
-		switch c.Kind {
-		case "fatal":
-			if c.Owner != "bng" {
-				run.Inconclusive(c.Entry+"/"+c.State, fmt.Sprintf("child died at input %d without a bng frame on the crashing stack (%s): %s", c.Idx, c.Owner, tail(c.Msg+" "+c.Stderr, 300)))
-				continue
-			}
-			rule := "no-panic"
-			if strings.HasPrefix(c.Msg, "fatal error") {
-				rule = "no-fatal-error"
-			}
-			add(&cand{entry: c.Entry, state: c.State, rule: rule, class: c.Site + "#" + panicKind(c.Msg), kind: "fatal", idx: c.Idx, input: c.Input, aux: c.Aux, msg: c.Msg, site: c.Site, stack: c.Stderr, from: c.From})
-		case "hang":
-			add(&cand{entry: c.Entry, state: c.State, rule: "no-hang", class: "watchdog-10s", kind: "hang", idx: c.Idx, input: c.Input, aux: c.Aux, msg: c.Msg, stack: c.Stderr, from: c.From})
-		case "listener":
-			add(&cand{entry: c.Entry, state: c.State, rule: "listener-alive", class: "no-answer-to-valid-probe", kind: "listener", idx: c.Idx, input: c.Input, aux: c.Aux, msg: c.Msg, stack: c.Stderr, from: c.From})
-		}
-	}
-	for i, n := range a.notes {
-		in, _ := hex.DecodeString(n.Input)
-		add(&cand{entry: a.nEntry[i], state: a.nState[i], rule: n.Rule, class: n.Class, kind: "note", idx: n.Idx, input: in, msg: n.Desc, extra: n.Extra})
-	}
 	for name, recs := range a.scales {
-		for _, s := range recs {
+		for _, sc := range recs {
 			run.Count("scaling_probes", 1)
-			if s.Flag {
-				add(&cand{entry: name, state: s.State, rule: "linear-time", class: "both-doublings-cost-6x", kind: "scale", msg: fmt.Sprintf("sizes %v min ns %v ratios %v", s.Sizes, s.MinNs, s.Ratio)})
+			if sc.Flag {
+				a.consider(&cand{entry: name, state: sc.State, rule: "linear-time", class: "both-doublings-cost-6x", kind: "scale", input: unhex(sc.Input), msg: fmt.Sprintf("CPU time grows faster than 6x per doubling of the input: sizes %v bytes, min CPU ns %v, ratios %.1f; witness is the largest sample", sc.Sizes, sc.MinNs, sc.Ratio)})
 			}
 		}
 	}
-
-	// reproduce every candidate once in a fresh process (in parallel)
-	var wg sync.WaitGroup
-	sem := make(chan struct{}, runtime.NumCPU())
-	type verdict struct {
-		ok   bool
-		how  string
-		note string
-	}
-	verdicts := make(map[string]verdict)
-	var vmu sync.Mutex
-	for _, k := range order {
-		c := cands[k]
-		wg.Add(1)
-		sem <- struct{}{}
-		go func(k string, c *cand) {
-			defer wg.Done()
-			defer func() { <-sem }()
-			ok, how, note := reproduce(c)
-			vmu.Lock()
-			verdicts[k] = verdict{ok, how, note}
-			vmu.Unlock()
-		}(k, c)
-	}
-	wg.Wait()
-	for _, k := range order {
-		c := cands[k]
-		v := verdicts[k]
+	for _, k := range a.order {
+		c := a.cands[k]
+		v := a.verdicts[k]
 		if !v.ok {
-			run.Inconclusive(c.entry+"/"+c.state, fmt.Sprintf("candidate %s %s at input %d did not reproduce in a fresh process (%s)", c.rule, c.class, c.idx, v.note))
+			run.Inconclusive(c.entry+"/"+c.state, fmt.Sprintf("candidate %s %s at input %d (%s) did not reproduce in a fresh process (%s)", c.rule, c.class, c.idx, hexShort(c.input), v.note))
 			continue
 		}
 		run.Count("confirmed_candidates", 1)
@@ -571,10 +531,15 @@ func judge(t *testing.T, a *agg) {
 			"entry": c.entry, "state": c.state, "input_hex": hex.EncodeToString(c.input), "input_index": c.idx,
 			"auxiliary_well_formed_frame": c.aux, "kind": c.kind, "message": c.msg, "site": c.site,
 			"stack": tail(c.stack, 3000), "reproduced": v.how, "witnesses": c.count, "extra": c.extra,
-			"replay": "VERIF_C09_SPEC=<file with {\"entry\":...,\"state\":...,\"inputs\":[input_hex]}> on the test binary",
+			"replay": "VERIF_C09_SPEC=<file with {\"entry\":...,\"state\":...,\"inputs\":[input_hex],\"dir\":<scratch dir>}> on the test binary",
 		}
 		run.Violation(c.entry, c.rule, c.class, desc, w)
 	}
+}
+
+func unhex(h string) []byte {
+	b, _ := hex.DecodeString(h)
+	return b
 }
 
 func hexShort(b []byte) string {
@@ -626,7 +591,11 @@ func reproduce(c *cand) (bool, string, string) {
 			return false, "", "child survived"
 		case "hang":
 			if res != nil && res.HangIdx != nil {
-				return true, "watchdog fired again " + label, ""
+				if hs := hangSite(stderr); hs == c.site {
+					return true, "watchdog fired again with the goroutine busy in the same function " + label, ""
+				} else {
+					return false, "", "hang elsewhere: " + hs
+				}
 			}
 			return false, "", "no hang"
 		case "listener":
@@ -650,7 +619,7 @@ func reproduce(c *cand) (bool, string, string) {
 	if ok {
 		return ok, how, note
 	}
-	if c.kind == "fatal" || c.kind == "hang" || c.kind == "listener" {
+	if c.idx >= c.from && c.idx-c.from <= 20000 {
 		ok2, how2, note2 := try(spec{Entry: c.entry, State: c.state, From: c.from, To: c.idx + 1}, fmt.Sprintf("when the generated stream %d..%d is replayed in a fresh process", c.from, c.idx))
 		if ok2 {
 			return ok2, how2, note2
@@ -691,6 +660,43 @@ func parseCrash(stderr string) (msg, site, owner string) {
 	}
 	site, owner = siteOf(block)
 	return msg, site, owner
+}
+
+// hangSite looks through the all-goroutine dump the child's watchdog wrote for a goroutine that
+// is executing (running/runnable) or blocked inside bng code and names its innermost bng frame.
+func hangSite(stderr string) string {
+	i := strings.Index(stderr, "C09-HANG")
+	if i < 0 {
+		return "unknown"
+	}
+	blocks := strings.Split(stderr[i:], "\n\n")
+	best := ""
+	for pass := 0; pass < 2 && best == ""; pass++ {
+		for _, b := range blocks {
+			lines := strings.Split(strings.TrimLeft(b, "\n"), "\n")
+			if len(lines) < 3 || !strings.HasPrefix(lines[0], "goroutine ") {
+				if len(lines) > 1 && strings.HasPrefix(lines[1], "goroutine ") {
+					lines = lines[1:]
+				} else {
+					continue
+				}
+			}
+			busy := strings.Contains(lines[0], "[running") || strings.Contains(lines[0], "[runnable")
+			if pass == 0 && !busy {
+				continue
+			}
+			// innermost frame that is not runtime/stdlib decides: a goroutine parked in harness code is not a hang of bng
+			site, owner := siteOf(lines[1:])
+			if owner == "bng" {
+				best = site
+				break
+			}
+		}
+	}
+	if best == "" {
+		return "unknown"
+	}
+	return best
 }
 
 const bngPrefix = "github.com/codelaboratoryltd/bng/"
